@@ -283,14 +283,118 @@ template <class E> void runGroups(long kk, uint64_t seed, bool, Result& res) {
     res.sig = fmm::confSig<E>(c, vh::mix(c.seed, 14)); res.nontrivial = N >= 2 && groups >= 2;
 }
 
+//================================================================================================ Part C: particle groups with several result rows
+// kernel that writes a recognisable value into EVERY result row through the pointers the library hands to the operators
+template <class RealT, class SpaceT> struct RowKernel {
+    using SpaceIndexType = SpaceT; using SpacialConfiguration = typename SpaceT::ConfigurationClass; using RealType = RealT;
+    explicit RowKernel(const SpacialConfiguration&) {}
+    template <class H, class P, class M> void P2M(const H&, const long[], const P&, const long, M&) const {}
+    template <class H, class C, class M> void M2M(const H&, const long, const C&, M&, const long[], const long) const {}
+    template <class H, class C, class L> void M2L(const H&, const long, const C&, const long[], const long, L&) const {}
+    template <class H, class L, class C> void L2L(const H&, const long, const L&, C&, const long[], const long) const {}
+    template <class H, class L, class P, class R> void L2P(const H&, const L&, const long idx[], const P&, R& rhs, const long n) const {
+        for (size_t v = 0; v < rhs.size(); ++v) for (long p = 0; p < n; ++p) rhs[v][p] += typename std::remove_reference<decltype(rhs[v][p])>::type((v + 1) * 1000 + idx[p] % 500);
+    }
+    template <class H, class P, class R> void P2P(const H&, const long[], const P&, R&, const long, const H&, const long[], const P&, R&, const long, const long) const {}
+    template <class H, class P, class R> void P2PInner(const H&, const long idx[], const P&, R& rhs, const long n) const {
+        for (size_t v = 0; v < rhs.size(); ++v) for (long p = 0; p < n; ++p) rhs[v][p] += typename std::remove_reference<decltype(rhs[v][p])>::type(7 * (v + 1));
+        (void)idx;
+    }
+};
+
+template <class Data, int NV, class Rhs, int NR> void runRows(long kk, uint64_t seed, Result& res) {
+    constexpr int D = 3;
+    using Real = Data;   // coordinates are stored in the data rows; keep them exactly representable
+    using Space = tbx::Morton<Real, D, false>;
+    using Cell = std::array<long, 1>;
+    using Tree = TbfTree<Real, Data, NV, Rhs, NR, Cell, Cell, Space>;
+    using Group = typename Tree::LeafGroupClass;
+    vh::Rng r(vh::mix(seed ^ 0xC14C, uint64_t(kk) * 16 + NV * 4 + NR));
+    const long H = r.range(1, 4);
+    auto geo = tbx::genGeo<Real, D>(r, H, false);
+    const tbx::Config<Real, D> cfg(H, geo.width, geo.center);
+    const long N = 1 + long(r.below(r.coin(0.5) ? 12 : 200));   // small groups: row strides of data and result blocks differ for many counts
+    const auto pos = tbx::genPositions<Real, D>(r, cfg, int(r.below(tbx::D_NB)), N);
+    std::vector<std::array<Data, NV>> parts(static_cast<size_t>(N));
+    for (long i = 0; i < N; ++i) { for (int d = 0; d < D; ++d) parts[size_t(i)][d] = Data(pos[size_t(i)][d]); for (int v = D; v < NV; ++v) parts[size_t(i)][v] = Data(i * 10 + v); }
+    const auto bss = tbx::blockSizesFor(N, false);
+    const long bs = bss[r.below(bss.size())];
+    res.desc = std::string("particle groups with ") + vh::str(NV) + " data values (" + (sizeof(Data) == 4 ? "float" : "double") + ") and " + vh::str(NR) + " result values (" + vh::str(sizeof(Rhs)) + " bytes) height=" + vh::str(H) + " N=" + vh::str(N) + " blockSize=" + vh::str(bs);
+    Tree tree(cfg, parts, bs, r.coin());
+    long leaves = 0;
+    auto checkGroup = [&](Group& g, const unsigned char* dataBase, size_t dataSize, const unsigned char* rhsBase, size_t rhsSize, const char* what) {
+        const Group& cg = g;
+        // pointers captured from applyToAllLeaves, leaf by leaf
+        std::vector<std::array<const void*, size_t(NR > 0 ? NR : 1)>> rhsFromApply; std::vector<std::array<const void*, size_t(NV)>> dataFromApply; std::vector<const long*> idxFromApply;
+        cg.applyToAllLeaves([&](auto&, const long* idx, auto&& d, auto&& rh) {
+            std::array<const void*, size_t(NR > 0 ? NR : 1)> a{}; for (int v = 0; v < NR; ++v) a[size_t(v)] = rh[size_t(v)];
+            std::array<const void*, size_t(NV)> b{}; for (int v = 0; v < NV; ++v) b[size_t(v)] = d[size_t(v)];
+            rhsFromApply.push_back(a); dataFromApply.push_back(b); idxFromApply.push_back(idx);
+        });
+        for (long i = 0; i < g.getNbLeaves(); ++i) {
+            const long n = g.getNbParticlesInLeaf(i);
+            auto rn = g.getParticleRhs(i); const auto rc = cg.getParticleRhs(i);
+            auto dn = g.getParticleData(i); const auto dc = cg.getParticleData(i);
+            for (int v = 0; v < NR; ++v) {
+                if ((const void*)rn[size_t(v)] != (const void*)rc[size_t(v)] || (const void*)rn[size_t(v)] != rhsFromApply[size_t(i)][size_t(v)]) res.fail("c14:rhs-accessors-disagree", std::string(what) + " leaf " + vh::str(i) + " row " + vh::str(v) + ": getParticleRhs() / const getParticleRhs() / applyToAllLeaves give different addresses");
+                const unsigned char* p = reinterpret_cast<const unsigned char*>(rn[size_t(v)]);
+                if (p < rhsBase || p + sizeof(Rhs) * size_t(n) > rhsBase + rhsSize - 2 * sizeof(long)) res.fail("c14:rhs-row-outside-buffer", std::string(what) + " leaf " + vh::str(i) + " row " + vh::str(v));
+            }
+            for (int v = 0; v < NV; ++v) {
+                if ((const void*)dn[size_t(v)] != (const void*)dc[size_t(v)] || (const void*)dn[size_t(v)] != dataFromApply[size_t(i)][size_t(v)]) res.fail("c14:data-accessors-disagree", std::string(what) + " leaf " + vh::str(i) + " value " + vh::str(v));
+                const unsigned char* p = reinterpret_cast<const unsigned char*>(dn[size_t(v)]);
+                if (p < dataBase || p + sizeof(Data) * size_t(n) > dataBase + dataSize) res.fail("c14:data-row-outside-buffer", std::string(what) + " leaf " + vh::str(i));
+            }
+            if (g.getParticleIndexes(i) != cg.getParticleIndexes(i) || cg.getParticleIndexes(i) != idxFromApply[size_t(i)]) res.fail("c14:index-accessors-disagree", std::string(what) + " leaf " + vh::str(i));
+            ++leaves;
+        }
+    };
+    std::vector<std::pair<unsigned char*, size_t>> copies;
+    for (auto& g : tree.getParticleGroups()) {
+        auto ps = g.getDataPtrsAndSizes();
+        checkGroup(g, ps[0].first, ps[0].second, ps[1].first, ps[1].second, "owner");
+        std::array<std::pair<unsigned char*, size_t>, 2> cp;
+        for (int b = 0; b < 2; ++b) { unsigned char* c = static_cast<unsigned char*>(malloc(ps[size_t(b)].second ? ps[size_t(b)].second : 1)); memcpy(c, ps[size_t(b)].first, ps[size_t(b)].second); cp[size_t(b)] = {c, ps[size_t(b)].second}; copies.push_back(cp[size_t(b)]); }
+        Group view(cp);
+        checkGroup(view, cp[0].first, cp[0].second, cp[1].first, cp[1].second, "view");
+    }
+    for (auto& c : copies) free(c.first);
+    // every result row written through the operators' pointers must be read back through applyToAllLeaves
+    if constexpr (NR > 0) {
+        TbfAlgorithm<Real, RowKernel<Real, Space>, Space> algo(cfg, 2);
+        algo.execute(tree);
+        tree.applyToAllLeaves([&](auto& hdr, const long* idx, auto&&, auto&& rhs) {
+            for (int v = 0; v < NR; ++v) for (long p = 0; p < hdr.nbParticles; ++p) {
+                const Rhs want = Rhs((H > 2 ? (v + 1) * 1000 + idx[p] % 500 : 0) + 7 * (v + 1));
+                if (rhs[size_t(v)][p] != want) { res.fail("c14:result-row-written-elsewhere", "row " + vh::str(v) + " particle " + vh::str(idx[p]) + " got " + vh::str(double(rhs[size_t(v)][p])) + " expected " + vh::str(double(want))); return; }
+            }
+        });
+        res.ev("row-kernel-runs");
+    }
+    res.ev("leaf-accessor-sets-checked", leaves);
+    res.sig = "rows:" + vh::str(NV) + "," + vh::str(NR) + "," + vh::str(sizeof(Data)) + "," + vh::str(sizeof(Rhs)) + "," + vh::str(kk); res.nontrivial = N >= 2;
+}
+
 } // namespace
 
 int main(int argc, char** argv) {
     vh::Mode m; m.name = "c14";
-    m.count = [](bool th) { return th ? 6000L : 480L; };
+    m.count = [](bool th) { return th ? 9000L : 720L; };
     m.run = [](long k, uint64_t seed, bool th, Result& r) {
         const long nLayouts = th ? 3000 : 240;
+        const long nGroups = th ? 3000 : 240;
         if (k < nLayouts) { runLayouts(k, seed, th, r); r.desc = "[c14-layouts #" + std::to_string(k) + "] " + r.desc; }
+        else if (k >= nLayouts + nGroups) {
+            const long kk = k - nLayouts - nGroups;
+            switch (kk % 5) {
+            case 0: runRows<double, 4, double, 3>(kk, seed, r); break;
+            case 1: runRows<double, 4, float, 3>(kk, seed, r); break;
+            case 2: runRows<float, 5, double, 2>(kk, seed, r); break;
+            case 3: runRows<double, 3, long, 4>(kk, seed, r); break;
+            default: runRows<float, 6, float, 4>(kk, seed, r); break;
+            }
+            r.desc = "[c14-rows #" + std::to_string(k) + "] " + r.desc;
+        }
         else {
             const long kk = k - nLayouts;
             switch (kk % 4) {
